@@ -695,6 +695,11 @@ var Prop = &harness.Prop{
 			}
 		}
 		u = append(u, refClientUnits(tier)...)
+		sd := 5
+		if tier == "thorough" {
+			sd = 7
+		}
+		u = append(u, stdPeerUnit(true, sd), stdPeerUnit(false, sd))
 		return u
 	},
 }
